@@ -455,7 +455,14 @@ func (l *Local) Allocate(ctx context.Context, cni *daemon.CNI, request ResourceR
 		// channel never blocks. A goroutine doing this later could run after the ip was
 		// released and given to another pod, and wipe that pod's ownership.
 		respCh := make(chan *AllocResp, 1)
-		l.commit(ctx, respCh, ipv4, ipv6, cni.PodID)
+		if ctx.Err() != nil {
+			// already cancelled, do not touch the ip, the pod may hold it from an earlier request
+			close(respCh)
+			return respCh, nil
+		}
+		// the result is always handed over, rolling back a request that is cancelled later is
+		// up to the caller, only the caller knows whether the pod held the ip before
+		l.commit(context.WithoutCancel(ctx), respCh, ipv4, ipv6, cni.PodID)
 		return respCh, nil
 	}
 
